@@ -127,7 +127,14 @@ func ruleADDR1(c *Ctx) {
 									isIdx = true
 								}
 							}
-							if sliceOnly && isIdx {
+							bothKinds := contains1(ck, "Slice") && contains1(ck, "Array")
+							if bothKinds && isIdx {
+								sel, isSel := arg.(*ast.SelectorExpr)
+								tv, isC := cf.Info().Types[arg]
+								if !((isSel && sel.Sel.Name == "forcedAddr") || (isC && tv.Value != nil && tv.Value.String() == "false")) {
+									okAll = false
+								}
+							} else if sliceOnly && isIdx {
 								if tv, ok := cf.Info().Types[arg]; !ok || tv.Value == nil || tv.Value.String() != "false" {
 									okAll = false
 								}
@@ -144,7 +151,26 @@ func ruleADDR1(c *Ctx) {
 					okBit = okAll && nCalls > 0
 					break
 				}
+				// a private helper serves the kinds of the factories that call it
+				if len(kinds) == 0 && decl.Obj != nil {
+					for _, cf := range callersOf(p, decl.Obj) {
+						cd := cf
+						if d := p.enclosingDecl(cf); d != nil {
+							cd = d
+						}
+						kinds = append(kinds, factoryKinds[strings.TrimPrefix(cd.Name, "json.")]...)
+					}
+				}
 				isSlice := len(kinds) > 0 && contains1(kinds, "Slice") && !contains1(kinds, "Array") && !contains1(kinds, "Struct")
+				ambiguous := contains1(kinds, "Slice") && contains1(kinds, "Array")
+				if idx, ok := val.(*ast.CallExpr); ok && ambiguous {
+					if sel, ok := idx.Fun.(*ast.SelectorExpr); ok && sel.Sel.Name == "Index" {
+						// the dispatch no longer tells slices and arrays apart statically: either legitimate form
+						want = "false (slice) or the parent's forcedAddr (array)"
+						okBit = bitConst == "false" || inherits(parent)
+						break
+					}
+				}
 				if idx, ok := val.(*ast.CallExpr); ok {
 					if sel, ok := idx.Fun.(*ast.SelectorExpr); ok && sel.Sel.Name == "Index" && isSlice {
 						want = "false (slice elements are addressable for the caller too)"
